@@ -323,6 +323,10 @@ pub mod lir {
 
             /*@FN_EMIT_MEMCPY@*/
 
+            /*@FN_SWITCH@*/
+
+            /*@FN_EMIT_SWITCH@*/
+
             /*@FN_OFFSET@*/
 
             /*@FN_NEW_TMP@*/
